@@ -372,7 +372,8 @@ where
     Other: AsRef<[u8]>,
 {
     fn eq(&self, other: &UnknownRecordData<Other>) -> bool {
-        self.data.as_ref().eq(other.data.as_ref())
+        self.rtype == other.rtype
+            && self.data.as_ref().eq(other.data.as_ref())
     }
 }
 
@@ -390,6 +391,10 @@ where
         &self,
         other: &UnknownRecordData<Other>,
     ) -> Option<Ordering> {
+        match self.rtype.partial_cmp(&other.rtype) {
+            Some(Ordering::Equal) => {}
+            other => return other,
+        }
         self.data.as_ref().partial_cmp(other.data.as_ref())
     }
 }
@@ -401,12 +406,20 @@ where
     Other: AsRef<[u8]>,
 {
     fn canonical_cmp(&self, other: &UnknownRecordData<Other>) -> Ordering {
+        match self.rtype.cmp(&other.rtype) {
+            Ordering::Equal => {}
+            other => return other,
+        }
         self.data.as_ref().cmp(other.data.as_ref())
     }
 }
 
 impl<Octs: AsRef<[u8]>> Ord for UnknownRecordData<Octs> {
     fn cmp(&self, other: &Self) -> Ordering {
+        match self.rtype.cmp(&other.rtype) {
+            Ordering::Equal => {}
+            other => return other,
+        }
         self.data.as_ref().cmp(other.data.as_ref())
     }
 }
